@@ -239,7 +239,9 @@ pub struct HAccessor {
     pub rec: Arc<Recorder>,
 }
 impl Accessor for HAccessor {
-    fn try_new() -> Option<Self> { None }
+    /// an accessor type WITH a default (no access), as a scripting layer would have it: one Rust system type, many
+    /// instances whose `System::accessor()` returns per-instance lists; shred itself never needs the default
+    fn try_new() -> Option<Self> { Some(HAccessor { tag: u32::MAX, reads: Vec::new(), writes: Vec::new(), rec: Recorder::new(MapMode::A) }) }
     fn reads(&self) -> Vec<ResourceId> {
         self.reads.iter().map(|&r| rid_of(self.rec.map.locate(r))).collect()
     }
